@@ -500,15 +500,21 @@ impl<W: 'static, R: 'static, T: 'static> XGenerator<W, R, T> {
         }
         let gen = to_native!(base, Self);
         Ok(match gen {
-            Self::Slice(inner, inner_start, inner_end) => Self::Slice(
-                inner.clone(),
-                inner_start + start,
-                inner_end
-                    .iter()
-                    .chain(end.map(|e| e + inner_start).iter())
-                    .min()
-                    .cloned(),
-            ),
+            // nested slices are merged unless the absolute bounds would overflow
+            Self::Slice(inner, inner_start, inner_end)
+                if inner_start.checked_add(start).is_some()
+                    && end.map_or(true, |e| e.checked_add(*inner_start).is_some()) =>
+            {
+                Self::Slice(
+                    inner.clone(),
+                    inner_start + start,
+                    inner_end
+                        .iter()
+                        .chain(end.map(|e| e + inner_start).iter())
+                        .min()
+                        .cloned(),
+                )
+            }
             _ => Self::Slice(base.clone(), start, end),
         })
     }
